@@ -117,6 +117,9 @@ func (l *Lexer) NextToken() *token.Token {
 		}
 		return token.Intern(token.STRING, str)
 	case 0:
+		if !l.pastEnd() { // a NUL byte of the input, not the end of it
+			return token.Intern(token.ILLEGAL, string(ch))
+		}
 		return l.EOLEOF()
 	case '.':
 		if nextChar == '.' { // DOTDOT
@@ -233,11 +236,16 @@ func (l *Lexer) readString(sep byte) (string, bool) {
 			}
 		case ch == sep:
 			return buf.String(), true
-		case ch == 0:
+		case ch == 0 && l.pastEnd():
 			return buf.String(), false
 		}
 		buf.WriteByte(ch)
 	}
+}
+
+// pastEnd tells, after a readChar that returned 0, that it was the end of the input and not a NUL byte in it.
+func (l *Lexer) pastEnd() bool {
+	return l.pos > len(l.input)
 }
 
 func (l *Lexer) peekChar() byte {
@@ -258,13 +266,9 @@ func (l *Lexer) readIdentifier() string {
 	return string(l.input[pos:l.pos])
 }
 
-func notEOL(ch byte) bool {
-	return ch != '\n' && ch != 0
-}
-
 func (l *Lexer) readLineComment() string {
 	pos := l.pos - 1
-	for notEOL(l.peekChar()) {
+	for l.pos < len(l.input) && l.input[l.pos] != '\n' {
 		l.pos++
 	}
 	return strings.TrimSpace(string(l.input[pos:l.pos]))
@@ -278,10 +282,10 @@ func (l *Lexer) readBlockComment() string {
 	pos1 := l.pos - 1
 	l.pos++
 	ch := l.readChar()
-	for ch != 0 && !l.endBlockComment(ch) {
+	for !l.pastEnd() && !l.endBlockComment(ch) {
 		ch = l.readChar()
 	}
-	if ch == 0 {
+	if l.pastEnd() {
 		l.pos--
 	} else {
 		l.pos++
